@@ -43,6 +43,7 @@ NameOK(e) ==
   LET p == ParseDecl(e.toks) IN
   IF ~p.ok THEN e.o = "err"
   ELSE /\ e.o = "ok"
+       /\ ("pyu_same" \in DOMAIN e => e.pyu_same)          \* Python's `union_cal` attribute is the same combination
        /\ LET rng == WinRange(e.win)
               w0 == CHOOSE x \in rng : \A z \in rng : x <= z
               n == Cardinality(rng)
